@@ -1,6 +1,7 @@
 (** Judge for C28 cases: correspondence (model = implementation) and property (oracle on the
     implementation's observations), both computed here. *)
 From OCV Require Import Base.Prelude Misc.Time Misc.TimeOracle.
+From Coq Require Import String.
 Open Scope string_scope.
 
 Definition judge (c : list op * list obs) : verdict :=
